@@ -42,6 +42,10 @@ class BW(object):
             self.bits.append((v >> i) & 1)
         self.bits.append(1)
 
+    def code(self, bits):
+        """a ready-made exp-Golomb code (the bit string TLC derived for a huge value)"""
+        self.bits += [1 if b else 0 for b in bits]
+
     def sint(self, v):
         self.uint(abs(v))
         if v:
@@ -81,12 +85,28 @@ PCODES = {("PIC", "ld"): 0xC8, ("PIC", "hq"): 0xE8, ("PIC", "none"): 0x88, ("FRA
 LD_SLICE_BYTES = 9
 
 
-def hq_slice(w, var, rnd, prefix_bytes, scaler):
+def coeff_bits(vals, big, n):
+    """bits of n coefficients (signed exp-Golomb); big = (pos, code): the first / last one is TLC's huge value"""
+    if not big:
+        return sint_bits(vals)
+    pos, code = big
+    at = 0 if pos.startswith("first") else n - 1
+    bits = []
+    for i, v in enumerate(vals):
+        if i == at:
+            bits += [1 if b else 0 for b in code] + [1 if pos.endswith("_neg") else 0]
+        else:
+            bits += sint_bits([v])
+    return bits
+
+
+def hq_slice(w, var, rnd, prefix_bytes, scaler, big=None):
     w.bytes_(bytes(rnd.randrange(256) for _ in range(prefix_bytes)))
     w.nbits(8, rnd.randrange(0, 64))  # qindex
+    bigcomp = rnd.randrange(3) if big else -1
     for comp in range(3):
         vals = [rnd.choice([0, 0, 1, -1, 2, -3, 7, -12, 100]) for _ in range(4)]
-        bits = sint_bits(vals)
+        bits = coeff_bits(vals, big if comp == bigcomp else None, 4)
         need = (len(bits) + 8 * scaler - 1) // (8 * scaler)
         if var == "exact" or var == "prefix":
             ln = need
@@ -112,16 +132,20 @@ def hq_slice(w, var, rnd, prefix_bytes, scaler):
         w.bits += body
 
 
-def ld_slice(w, var, rnd):
-    total = 8 * LD_SLICE_BYTES
+LD_BIG_SLICE_BYTES = 64  # room for a 201-bit code
+
+
+def ld_slice(w, var, rnd, big=None):
+    total = 8 * (LD_BIG_SLICE_BYTES if big else LD_SLICE_BYTES)
     start = len(w.bits)
     w.nbits(7, rnd.randrange(0, 64))
     lb = intlog2(total - 7)
     left = total - 7 - lb
     yv = [rnd.choice([0, 1, -1, 2, -5]) for _ in range(4)]
     cv = [rnd.choice([0, 1, -1, 3]) for _ in range(8)]
-    yb = sint_bits(yv)
-    cb = sint_bits(cv)
+    inluma = bool(big) and rnd.random() < 0.5
+    yb = coeff_bits(yv, big if inluma else None, 4)
+    cb = coeff_bits(cv, big if big and not inluma else None, 8)
     fill = 0
     if var == "exact":
         ylen = min(len(yb), left)
@@ -139,6 +163,8 @@ def ld_slice(w, var, rnd):
     while len(body) < eff:
         body.append(fill)
     rest = left - eff
+    if big and len(cb) > rest:
+        raise AssertionError("huge value does not fit the low-delay slice")
     cbody = cb[:rest]
     while len(cbody) < rest:
         cbody.append(fill)
@@ -146,7 +172,7 @@ def ld_slice(w, var, rnd):
     assert len(w.bits) - start == total
 
 
-def transform_parameters(w, prof, ver, var):
+def transform_parameters(w, prof, ver, var, ld_bytes=LD_SLICE_BYTES, qm_code=None):
     w.uint(4)  # wavelet_index haar_with_shift
     w.uint(0)  # dwt_depth
     if ver >= 3:
@@ -155,12 +181,16 @@ def transform_parameters(w, prof, ver, var):
     w.uint(1)  # slices_x
     w.uint(1)  # slices_y
     if prof == "ld":
-        w.uint(LD_SLICE_BYTES)
+        w.uint(ld_bytes)
         w.uint(1)
     elif prof == "hq":
         w.uint(2 if var == "prefix" else 0)  # slice_prefix_bytes
         w.uint(2 if var == "prefix" else 1)  # slice_size_scaler
-    w.bit(0)  # custom_quant_matrix
+    if qm_code is None:
+        w.bit(0)  # custom_quant_matrix
+    else:
+        w.bit(1)
+        w.code(qm_code)  # dwt_depth = dwt_depth_ho = 0: the single LL entry
 
 
 def build_bytes(hist, seed):
@@ -188,13 +218,23 @@ def build_bytes(hist, seed):
             how = u["how"]
             break
         fill = 1 if u.get("align") == "ones" else 0
+        big = (u["pos"], step["code"]) if "big" in u else None
         if k == "SH":
             parse_info(0x00, 0, 0)
             ver = u["ver"]
+
+            def field(name, small):
+                """a variable-length header field: TLC's huge code if this is the chosen position"""
+                if big and big[0] == name:
+                    w.code(big[1])
+                else:
+                    w.uint(small)
+
+            pos = big[0] if big else ""
             w.uint(ver)
-            w.uint(0)
+            field("minor_version", 0)
             w.uint(rnd.choice([0, 3]))
-            w.uint(0)
+            field("level", 0)
             w.uint(99 if u["bvf"] == "unknown" else 0)
             w.bit(1)
             w.uint(2)
@@ -204,12 +244,36 @@ def build_bytes(hist, seed):
             w.bit(0)  # scan format
             unk = u["idx"] == "unknown"
             w.bit(1)
-            w.uint(99 if unk else 12)  # frame rate index
+            if pos == "frame_rate_denom":
+                w.uint(0)  # custom frame rate: numerator, denominator
+                w.uint(25)
+                field("frame_rate_denom", 1)
+            else:
+                w.uint(99 if unk else 12)  # frame rate index
             w.bit(1)
-            w.uint(77 if unk else 2)  # pixel aspect ratio index
-            w.bit(0)  # clean area
+            if pos == "pixel_aspect_ratio_numer":
+                w.uint(0)  # custom pixel aspect ratio: numerator, denominator
+                field("pixel_aspect_ratio_numer", 1)
+                w.uint(1)
+            else:
+                w.uint(77 if unk else 2)  # pixel aspect ratio index
+            if pos == "clean_left_offset":
+                w.bit(1)  # clean area: width, height, left offset, top offset
+                w.uint(2)
+                w.uint(2)
+                field("clean_left_offset", 0)
+                w.uint(0)
+            else:
+                w.bit(0)  # clean area
             w.bit(1)
-            w.uint(50 if unk else 5)  # signal range index
+            if pos == "color_diff_excursion":
+                w.uint(0)  # custom signal range: luma offset, excursion, colour difference offset, excursion
+                w.uint(0)
+                w.uint(255)
+                w.uint(128)
+                field("color_diff_excursion", 255)
+            else:
+                w.uint(50 if unk else 5)  # signal range index
             w.bit(1)
             if unk:
                 w.uint(33)  # colour spec index unknown -> treated as sdtv_525, no nested parts
@@ -226,13 +290,14 @@ def build_bytes(hist, seed):
             prof = u["prof"]
             parse_info(PCODES[(k, prof)], 0, 0)
             w.nbits(32, rnd.getrandbits(32))
-            transform_parameters(w, prof, ver, u["sl"])
+            cbig = big if big and big[0] != "quant_matrix" else None
+            transform_parameters(w, prof, ver, u["sl"], ld_bytes=LD_BIG_SLICE_BYTES if cbig else LD_SLICE_BYTES, qm_code=big[1] if big and not cbig else None)
             w.bits += [fill] * ((-len(w.bits)) % 8)
             if prof == "hq":
                 hqp = (2, 2) if u["sl"] == "prefix" else (0, 1)
-                hq_slice(w, u["sl"], rnd, *hqp)
+                hq_slice(w, u["sl"], rnd, *hqp, big=cbig)
             elif prof == "ld":
-                ld_slice(w, u["sl"], rnd)
+                ld_slice(w, u["sl"], rnd, big=cbig)
         elif k == "FRAG0":
             prof = u["prof"]
             pc = PCODES[(k, prof)]
@@ -242,7 +307,7 @@ def build_bytes(hist, seed):
             w.nbits(32, rnd.getrandbits(32))
             w.nbits(16, rnd.getrandbits(16))
             w.nbits(16, 0)
-            transform_parameters(w, prof, ver, "exact")
+            transform_parameters(w, prof, ver, "exact", qm_code=big[1] if big else None)
             if prof == "hq":
                 hqp = (0, 1)
         elif k == "FRAGN":
@@ -255,7 +320,7 @@ def build_bytes(hist, seed):
             w.nbits(16, 2 if u["at"] == "oob" else 0)
             if prof == "hq":
                 var = u["sl"] if u["sl"] != "prefix" else "exact"
-                hq_slice(w, var, rnd, *hqp)
+                hq_slice(w, var, rnd, *hqp, big=big)
             else:
                 ld_slice(w, u["sl"], rnd)
         elif k == "DATA":
@@ -340,6 +405,25 @@ def strip_state(d):
     return d
 
 
+NBITS_KEYS = ("picture_number", "next_parse_offset", "previous_parse_offset")
+
+
+def huge_values(d, out=None):
+    """the integers of a description that need 31 bits or more (fixed-width fields excluded), as magnitudes"""
+    if out is None:
+        out = []
+    if isinstance(d, dict):
+        for k, v in d.items():
+            if k not in NBITS_KEYS and k != "_state":
+                huge_values(v, out)
+    elif isinstance(d, (list, tuple)):
+        for x in d:
+            huge_values(x, out)
+    elif isinstance(d, int) and not isinstance(d, bool) and abs(d).bit_length() >= 31:
+        out.append(abs(int(d)))
+    return out
+
+
 class Deadline(BaseException):
     """CPU budget of one case exhausted (a mutant that declares an enormous picture): not a verdict"""
 
@@ -356,7 +440,7 @@ def roundtrip(data, budget=3.0):
     try:
         return _roundtrip(data)
     except (Deadline, MemoryError):  # CPU or memory budget of one case exhausted: not a verdict
-        ev = {"ev": "rt", "n": len(data), "parsed": False, "outcome": "timeout", "ser_ok": False, "ser_exc": "", "same_bytes": False, "same_desc": False, "redes_ok": False, "diff_bit": -1, "seqs": []}
+        ev = {"ev": "rt", "n": len(data), "parsed": False, "outcome": "timeout", "ser_ok": False, "ser_exc": "", "same_bytes": False, "same_desc": False, "redes_ok": False, "diff_bit": -1, "seqs": [], "hvg": [], "hvbits": 0}
         return ev
     finally:
         signal.setitimer(signal.ITIMER_VIRTUAL, 0)
@@ -365,7 +449,7 @@ def roundtrip(data, budget=3.0):
 
 def _roundtrip(data):
     """-> event dict (without tid)"""
-    ev = {"ev": "rt", "n": len(data), "parsed": False, "outcome": "", "ser_ok": False, "ser_exc": "", "same_bytes": False, "same_desc": False, "redes_ok": False, "diff_bit": -1, "seqs": []}
+    ev = {"ev": "rt", "n": len(data), "parsed": False, "outcome": "", "ser_ok": False, "ser_exc": "", "same_bytes": False, "same_desc": False, "redes_ok": False, "diff_bit": -1, "seqs": [], "hvg": [], "hvbits": 0}
     try:
         desc = deserialise(data)
     except EOFError:
@@ -381,6 +465,9 @@ def _roundtrip(data):
     ev["outcome"] = "complete"
     ev["seqs"] = unit_kinds(desc)
     snapshot = strip_state(desc)
+    hv = sorted(huge_values(snapshot))
+    ev["hvg"] = sorted(trace.limbs(v) for v in hv)
+    ev["hvbits"] = max([v.bit_length() for v in hv] or [0])
     try:
         out = serialise(desc)
     except MemoryError:
@@ -466,6 +553,9 @@ def g_case(arg):
     ev["src"] = "tlc"
     ev["predicted"] = hist[-1]["closed" if close else "fin"]
     ev["dev"] = any(s["dev"] for s in hist)
+    # the huge values TLC derived for the codes this stream carries (limbs): what a complete parse must report
+    ev["hvx"] = True
+    ev["hve"] = sorted(list(s["val"]) for s in hist if s.get("val"))
     return ev
 
 
@@ -482,8 +572,15 @@ def library_stream(seed):
     depth = rnd.choice([0, 1])
     n = sx * sy
 
+    huge = random.Random(seed * 131 + 5)  # own generator: the stream of small choices stays as it was
+
     def coeffs(k):
-        return [rnd.choice([0, 0, 0, 1, -1, 2, -7, 31]) for _ in range(k)]
+        v = [rnd.choice([0, 0, 0, 1, -1, 2, -7, 31]) for _ in range(k)]
+        if seed % 5 == 0:  # every fifth base stream: one coefficient of 31 .. 130 bits per block
+            e = huge.choice([31, 32, 47, 48, 49, 53, 54, 63, 64, 65, 100, 129])
+            m = (1 << e) - huge.choice([1, 2, 3, huge.randrange(1, 1 << 20)])
+            v[huge.randrange(k)] = m if huge.random() < 0.5 else -m
+        return v
 
     luma_per_slice = (w_ * h_) // n
     sh = fd.DataUnit(
@@ -566,7 +663,7 @@ def m_case(arg):
     try:
         base = build_bytes(hist, base_seed) if kind == "hist" else library_stream(base_seed)
     except Exception as e:  # noqa: the library could not produce the seed stream (producer fault: not C06's subject)
-        return {"tid": tid, "src": kind, "ev": "rt", "n": 0, "parsed": False, "outcome": "no-seed", "exc": common.exc_signature(e), "ser_ok": False, "ser_exc": "", "same_bytes": False, "same_desc": False, "redes_ok": False, "diff_bit": -1, "seqs": []}
+        return {"tid": tid, "src": kind, "ev": "rt", "n": 0, "parsed": False, "outcome": "no-seed", "exc": common.exc_signature(e), "ser_ok": False, "ser_exc": "", "same_bytes": False, "same_desc": False, "redes_ok": False, "diff_bit": -1, "seqs": [], "hvg": [], "hvbits": 0}
     data = mutate(base, rnd) if mseed % 7 else base
     ev = roundtrip(data)
     ev["tid"] = tid
@@ -575,7 +672,11 @@ def m_case(arg):
 
 
 def _slim(ev):
-    return {k: ev[k] for k in ("tid", "ev", "parsed", "outcome", "ser_ok", "same_bytes", "same_desc", "redes_ok", "seqs")}
+    d = {k: ev[k] for k in ("tid", "ev", "parsed", "outcome", "ser_ok", "same_bytes", "same_desc", "redes_ok", "seqs")}
+    d["hvx"] = bool(ev.get("hvx"))  # a prediction of the huge values exists (TLC histories only)
+    d["hve"] = ev.get("hve", [])
+    d["hvg"] = ev.get("hvg", [])
+    return d
 
 
 def case_of(ev, job):
@@ -629,12 +730,12 @@ def run(ctx):
         res = tlc.run("Deser", "mc/Deser.cfg", dump=True, timeout=1200)
         return res, load_histories(res.dump_path)
 
-    hists = cached_tlc(ctx, "c06_exhaustive", "exhaustive", {"MaxLen": 5}, produce)
+    hists = cached_tlc(ctx, "c06_exhaustive", "exhaustive", {"MaxLen": 12}, produce)
     if not ctx.quick:
         import glob
 
         def produce_sim():
-            sim = tlc.run("Deser", open(os.path.join(tlc.SPEC, "mc/Deser.cfg")).read().replace("MaxLen = 5", "MaxLen = 14"), simulate=3000, depth=16, seed=ctx.seed, workers=1, timeout=1200)
+            sim = tlc.run("Deser", open(os.path.join(tlc.SPEC, "mc/Deser.cfg")).read().replace("MaxLen = 12", "MaxLen = 14"), simulate=3000, depth=16, seed=ctx.seed, workers=1, timeout=1200)
             out = []
             for p in sorted(glob.glob(os.path.join(sim.sim_dir, "tr*"))):
                 sts = sim_states(p)
@@ -645,24 +746,38 @@ def run(ctx):
         hists = hists + cached_tlc(ctx, "c06_simulate", "random walks", {"MaxLen": 14, "simulate": 3000, "depth": 16}, produce_sim)
     sub = int(os.environ.get("VERIF_SUBSAMPLE") or 1)  # mutation-sanity runs only: a subset of the full run
     reps = ctx.pick(3, 12) if sub == 1 else 1
+    big_reps = ctx.pick(1, 3) if sub == 1 else 1  # histories with a huge value: the class is TLC's, only the filler is seeded
+
+    def is_big(h):
+        return any("big" in s["u"] for s in h)
+
     jobs = []
     for h in hists:
-        for r in range(reps):
+        for r in range(big_reps if is_big(h) else reps):
             for close in (False, True):
                 if close and h[-1]["u"]["k"] == "END":
                     continue
                 jobs.append((len(jobs) + 1, h, ctx.seed * 1009 + r, close))
     gev = common.pmap(g_case, jobs)
     nm = ctx.pick(20000, 400000) // sub
-    complete = [h for h in hists if h[-1]["u"]["k"] == "END" and h[-1]["out"] == "complete"]
+    complete = [h for h in hists if h[-1]["u"]["k"] == "END" and h[-1]["out"] == "complete" and not is_big(h)]
+    # (the dump holds one history per abstract transition: the clean end of a stream is reached first by a history
+    # without huge values, so the complete huge-value streams are the huge-value transitions closed by a plain EOS)
+    complete_big = [h + [PLAIN_EOS] for h in hists if "big" in h[-1]["u"] and h[-1]["closed"] == "complete"]
+    if not complete_big:
+        raise RuntimeError("no complete history with a huge value in TLC's dump")
     rnd = random.Random(ctx.seed)
+    rnd_big = random.Random(ctx.seed * 31 + 7)
     mjobs = []
     for j in range(nm):
         tid = len(jobs) + 1 + j
         if j % 3 == 0:
             mjobs.append((tid, "lib", rnd.randrange(5000), rnd.randrange(1 << 30), None))
         else:
-            mjobs.append((tid, "hist", rnd.randrange(1 << 20), rnd.randrange(1 << 30), rnd.choice(complete)))
+            a, b, c = rnd.randrange(1 << 20), rnd.randrange(1 << 30), rnd.choice(complete)
+            if j % 4 == 1:  # a quarter of all mutants: streams that carry a huge exp-Golomb value
+                c = rnd_big.choice(complete_big)
+            mjobs.append((tid, "hist", a, b, c))
     mev = common.pmap(m_case, mjobs)
     events = gev + mev
     alljobs = jobs + mjobs
@@ -696,6 +811,10 @@ def run(ctx):
         if not ctx.violations:
             raise
         st = {"skipped": "self-test not conclusive on code that is already convicted by this run: %s" % e}
+    big_parsed = [e for e in gev if e["parsed"] and e.get("hve")]
+    big48 = [e for e in events if e["parsed"] and e.get("hvbits", 0) >= 48]
+    if len(big_parsed) < 500 or len(big48) < 500:
+        raise RuntimeError("vacuous: only %d parsed TLC streams carry a huge value, only %d parsed streams hold an integer of 48 bits or more" % (len(big_parsed), len(big48)))
     kinds = set()
     for e in events:
         if e["parsed"]:
@@ -714,6 +833,13 @@ def run(ctx):
             "tlc_history_streams": len(gev),
             "mutants": len(mev),
             "parsed_to_completion": parsed,
+            "huge_values": {
+                "classes_enumerated_by_tlc": "7 code lengths (31, 47, 48, 53, 63, 64, 100 data bits) x 4 bit patterns (2^k - 1, 2^(k+1) - 2, alternating, 2^(k+1) - 3) x 19 positions (6 sequence header fields, custom quantisation matrix entry of LD/HQ pictures and first fragments, first/last coefficient of either sign in LD/HQ pictures and HQ fragments)",
+                "parsed_tlc_streams_with_huge_value": len(big_parsed),
+                "parsed_streams_with_integer_of_48_bits_or_more": len(big48),
+                "of_which_mutants": sum(1 for e in big48 if e["src"] != "tlc"),
+                "largest_integer_bits": max(e.get("hvbits", 0) for e in events),
+            },
             "outcomes": {o: sum(1 for e in events if e["outcome"] == o) for o in ("complete", "eof", "raises", "timeout", "no-seed")},
             "spec_disagreements": {"predicted_outcome_differs": pred_dis, "logged_clauses": logged},
             "binding_selftest": st,
@@ -723,7 +849,7 @@ def run(ctx):
     ctx.assumptions += [
         "TLC histories are concretised by the harness's own bit writer (2x2 4:4:4 pictures, one slice, depth 0); library-built base streams (up to 4x4, depth 1, 4 slices) are only used as seeds for mutation",
         "descriptions are compared without the computed '_state' copies",
-        "exhaustive box: histories of <= 5 data units + end marker over the alphabet of Deser.tla",
+        "exhaustive box: every abstract transition (state before, unit, state after, plain-so-far flag) of Deser.tla's outcome machine over its alphabet (history length bound 12, never reached); a huge-value unit is explored after every history of plain units and is followed by a plain end of sequence / the end of the stream only",
         "a mutant whose round trip needs more than 3 CPU-seconds (e.g. a corrupted dimension declaring an enormous picture) is counted as 'timeout' and is outside the evaluated set",
     ]
 
